@@ -227,7 +227,7 @@ Proof.
   clear HC. intros HI Hsh. pose proof (inv_len _ _ _ HI) as Hlen.
   destruct Hsh as [sg Hb Hn | sg c Hpcn Hb Hn Hd | i sg m Hn Hr Hl Hm1 Hm2
                   | i sg p p' rest k Hn Hr Hp Hw | j sg p p' got q d t pend Hn Hr Hsp Hp Hrd Hpend Hrel
-                  | i sg c Hn Hr]; unfold mu.
+                  | i sg c Hn Hr Hexit]; unfold mu.
   - assert (Hlt : (pc s < length (stages s))%nat) by (apply nth_error_Some; congruence).
     cbn [stages pipes pc wt]. rewrite upd_length.
     assert (Hns : sst sg = NotStarted) by (apply (inv_started _ _ _ HI _ _ Hn); lia).
